@@ -5,6 +5,7 @@ import (
 	"go/constant"
 	"go/token"
 	"go/types"
+	"os"
 	"strings"
 
 	"golang.org/x/tools/go/ssa"
@@ -282,6 +283,58 @@ func checkC10(c *Ctx) {
 	c.R.Floor("G3.once", 1)
 	c.scopeGuard("scope", len(scope), 3, "library functions reachable from the descriptor readers")
 	c.ruleTimeRange("G17.time", "efi/signature.ReadEFIVariableAuthencation2")
+	// the GUIDs of the encoded structures are little endian: the text-order converters are not used on them
+	{
+		counts := map[string]int{}
+		n := 0
+		for _, fn := range c.P.LibFunctions() {
+			if fn.Pkg == nil || fn.Pkg.Pkg.Path() != sigPkg {
+				continue
+			}
+			fn := fn
+			instrsOf(fn, func(i ssa.Instruction) {
+				call, ok := i.(*ssa.Call)
+				if !ok {
+					return
+				}
+				switch ir.CallID(call) {
+				case utilPkg + ".GUIDToBytes", utilPkg + ".EFIGUID.Bytes", utilPkg + ".WriteGUID", utilPkg + ".BytesToGUID":
+					n++
+					key := ordinalKey(counts, name(fn)+":text-order-bytes")
+					c.R.Violf("G7.wire", name(fn), strings.TrimPrefix(key, name(fn)+":"), c.IPos(call),
+						"the codecs do not use the big-endian (text order) GUID converters for encoded structures",
+						"call of "+shortID(ir.CallID(call))+": it reads/writes the 16 bytes in text order, not in the EFI in-structure layout")
+				}
+			})
+		}
+		if n == 0 {
+			c.R.Okf("G7.wire", "-", "scan", "-", "no text-order GUID converter is called in the signature package")
+		}
+	}
+	c.ruleBoundary("G18.boundary", []string{"efi/signature.ReadWinCertificate", "efi/signature.ReadWinCertificateUEFIGUID", "efi/signature.ReadEFIVariableAuthencation2", "efi/signature.(*EFIVariableAuthentication2).Unmarshal"},
+		func(need Affine) bool {
+			// the whole descriptor: bytes before dwLength's structure plus dwLength
+			if len(need.T) != 1 || (need.K != 16 && need.K != 0) {
+				return false
+			}
+			for sym, cf := range need.T {
+				if cf != 1 {
+					return false
+				}
+				if strings.HasSuffix(sym, ".Length") {
+					return true
+				}
+				if call, ok := ir.StripConv(need.Sym[sym]).(*ssa.Call); ok && strings.HasSuffix(ir.CallID(call), "Uint32") {
+					return true
+				}
+			}
+			return false
+		}, "a buffer that holds exactly the descriptor (no payload behind it) is a complete descriptor")
+	for _, s := range []string{"efi/signature.ReadWinCertificate", "efi/signature.ReadWinCertificateUEFIGUID", "efi/signature.ReadEFIVariableAuthencation2"} {
+		if fn := c.FnOpt(s); fn != nil {
+			c.ruleEOFNotSuccess("G4.eofok", fn)
+		}
+	}
 	c.ruleAppendOnly("G15.append", "efi/signature.WriteWinCertificate", "efi/signature.WriteWinCertificateUEFIGUID", "efi/signature.WriteEFIVariableAuthencation2")
 	c.R.Floor("G15.append", 3)
 	c.ruleShortCopy("G16.short", "efi/signature.ReadWinCertificate", "efi/signature.ReadWinCertificateUEFIGUID", "efi/signature.ReadEFIVariableAuthencation2")
@@ -877,5 +930,126 @@ func (c *Ctx) ruleTimeRange(rule, spec string) {
 	}
 	if n == 0 {
 		c.R.Okf(rule, name(fn), "scan", c.Pos(fn.Pos()), "the decoder rejects no descriptor because of the value of a timestamp field")
+	}
+}
+
+// inevitablyRejects: every path from the edge from->to of g ends in a return
+// that reports failure (a non-nil error or the constant false).
+func inevitablyRejects(g *ssa.Function, from, to int) bool {
+	seen := map[[2]int]bool{}
+	var walk func(b, pred *ssa.BasicBlock) bool
+	walk = func(b, pred *ssa.BasicBlock) bool {
+		k := [2]int{b.Index, pred.Index}
+		if seen[k] {
+			return true
+		}
+		seen[k] = true
+		if ret, ok := b.Instrs[len(b.Instrs)-1].(*ssa.Return); ok {
+			if len(ret.Results) == 0 {
+				return false
+			}
+			onEdge := func(v ssa.Value) ssa.Value {
+				if ph, ok := v.(*ssa.Phi); ok && ph.Block() == b {
+					for i, p := range b.Preds {
+						if p == pred {
+							return ph.Edges[i]
+						}
+					}
+				}
+				return v
+			}
+			last := onEdge(ret.Results[len(ret.Results)-1])
+			if isErrorType(last.Type()) {
+				return definitelyNonNilErr(last, 0)
+			}
+			first := onEdge(ret.Results[0])
+			if isBoolType(first.Type()) {
+				kc, ok := first.(*ssa.Const)
+				return ok && kc.Value != nil && !constant.BoolVal(kc.Value)
+			}
+			return false
+		}
+		if len(b.Succs) == 0 {
+			return true
+		}
+		for _, s := range b.Succs {
+			if !walk(s, b) {
+				return false
+			}
+		}
+		return true
+	}
+	return walk(g.Blocks[to], g.Blocks[from])
+}
+
+// ruleBoundary: a comparison "available <= needed" (or an equivalent form)
+// whose outcome leads to rejection on all paths refuses the case available ==
+// needed. Where needed is exactly the size of the structure that is decoded
+// (isWhole), that case is a complete structure and must be accepted.
+func (c *Ctx) ruleBoundary(rule string, specs []string, isWhole func(need Affine) bool, why string) {
+	n := 0
+	counts := map[string]int{}
+	done := map[*ssa.Function]bool{}
+	for _, spec := range specs {
+		fn := c.FnOpt(spec)
+		if fn == nil {
+			continue
+		}
+		for _, g := range c.cone(fn) {
+			if done[g] {
+				continue
+			}
+			done[g] = true
+			for _, ce := range ir.CondEdges(g) {
+				bo, ok := ce.Cond.(*ssa.BinOp)
+				if !ok || ce.If == nil {
+					continue
+				}
+				isAvail := func(v ssa.Value) bool {
+					v = ir.StripConv(v)
+					if lc, ok := v.(*ssa.Call); ok {
+						id := ir.CallID(lc)
+						return id == "builtin.len" || id == "bytes.Buffer.Len" || id == "bytes.Reader.Len"
+					}
+					if p, ok := v.(*ssa.Parameter); ok {
+						return strings.Contains(strings.ToLower(p.Name()), "size") || strings.Contains(strings.ToLower(p.Name()), "len")
+					}
+					return false
+				}
+				op := bo.Op
+				avail, need := bo.X, bo.Y
+				if !isAvail(avail) {
+					if !isAvail(bo.Y) {
+						continue
+					}
+					avail, need = bo.Y, bo.X
+					op = flip(op)
+				}
+				if !ce.Truth {
+					op = negate(op)
+				}
+				// the edge is taken when avail == need?
+				if op != token.LEQ && op != token.EQL {
+					continue
+				}
+				if os.Getenv("VCHECK_DEBUG") == "bound" {
+					fmt.Fprintf(os.Stderr, "bound %s %s rejects=%v need=%s\n", name(g), c.IPos(ce.If), inevitablyRejects(g, ce.Edge.From, ce.Edge.To), affineOf(need, 0).String())
+				}
+				if !inevitablyRejects(g, ce.Edge.From, ce.Edge.To) {
+					continue
+				}
+				na := affineOf(need, 0)
+				if !isWhole(na) {
+					continue
+				}
+				n++
+				key := ordinalKey(counts, name(g)+":boundary")
+				c.R.Violf(rule, name(g), strings.TrimPrefix(key, name(g)+":"), c.IPos(ce.If), why,
+					"the input is refused when the available length equals "+na.String()+" (comparison "+bo.Op.String()+" at "+c.IPos(ce.If)+"): exactly as many bytes as the structure needs are taken for too few")
+			}
+		}
+	}
+	if n == 0 {
+		c.R.Okf(rule, "-", "scan", "-", why+": no rejecting comparison refuses the exact size")
 	}
 }
